@@ -43,6 +43,7 @@ def cases(tier, seed):
             out.append(("tree", spec, tuple(CFG5)))
         for spec in F.P_ALL:
             out.append(("tree", spec, ((), DEFAULT_PAIR)))
+        out.append(("tlc", 1))
     else:
         for i, spec in enumerate(F.K4()):
             out.append(("tree", spec, tuple(CFG17 if i % 4 == 0 else CFG5)))
